@@ -8,6 +8,14 @@ ALL = ['C%02d' % i for i in range(1, 21)]
 
 # id -> (technique, level text, level note, design ref)
 CHECKS = {
+    'C08': (
+        'exhaustive small tables + seeded larger tables against a value-space node-table reference',
+        'Templates (1-2 fields on attributes or child elements; decimal/integer/boolean/string/QName; flat and nested scopes) '
+        'x tables of key / keyref / unique rows over {absent, value A in two spellings, value B}: complete for one field and '
+        '<= 2 rows per constraint (9261 documents per template in thorough), seeded samples for two fields, three rows and '
+        'several scope instances; ID/IDREF/IDREFS tables; both XSD versions; is_valid() against the reference in both directions.',
+        'trusted: oracle() in vf/checks/c08.py (qualified node sets, value-space tuples); unique with partly absent fields is unspecified',
+        'DESIGN.md section 3 C08'),
     'C03': (
         'Hypothesis-generated attribute declarations x exhaustive attribute subsets against a set-based reference model',
         'Random attribute uses (use, form, fixed/default, global refs to two namespaces, attribute group, wildcard constraint x '
